@@ -58,6 +58,13 @@ fn fft_scenario<B: Fld, E: FieldElement<BaseField = B>>(n: usize) -> Vec<u8> {
     fft::interpolate_poly_with_offset(&mut d, &itw, B::GENERATOR);
     let deg = fft::infer_degree(&a, B::ONE);
     let mut parts = vec![bytes_of(&tw), bytes_of(&itw), bytes_of(&a), bytes_of(&b), bytes_of(&b8), bytes_of(&c), bytes_of(&d), deg.to_le_bytes().to_vec()];
+    // other domain offsets, in particular the unshifted domain (offset ONE) and an offset that is a root of unity
+    for off in [B::ONE, B::get_root_of_unity(2)] {
+        parts.push(bytes_of(&fft::evaluate_poly_with_offset(&p, &tw, off, 2)));
+        let mut d2 = p.clone();
+        fft::interpolate_poly_with_offset(&mut d2, &itw, off);
+        parts.push(bytes_of(&d2));
+    }
     for v in big.iter() {
         parts.push(bytes_of(v));
     }
@@ -81,7 +88,10 @@ fn utils_scenario<B: Fld, E: FieldElement<BaseField = B>>(n: usize) -> Vec<u8> {
         }
     }
     let inv = math::batch_inversion(&z);
-    digest(&[bytes_of(&ps), bytes_of(&pso), bytes_of(&a), bytes_of(&m), bytes_of(&inv)])
+    let pso1 = math::get_power_series_with_offset(base, E::ONE, n);
+    let pso0 = math::get_power_series_with_offset(base, E::ZERO, n);
+    let ps1 = math::get_power_series(E::ONE, n);
+    digest(&[bytes_of(&ps), bytes_of(&pso), bytes_of(&pso1), bytes_of(&pso0), bytes_of(&ps1), bytes_of(&a), bytes_of(&m), bytes_of(&inv)])
 }
 
 fn merkle_scenario<H: Hasher>(n: usize) -> Vec<u8> {
